@@ -280,3 +280,16 @@ _ROUND9 = {
 }
 for _k, _v in _ROUND9.items():
     META[_k]["text"] += " " + _v
+
+# dimensions added after the tenth round (the other ten properties)
+_ROUND10 = {
+    "C02": "A rapid layer forces creates with generated ids into each other's window on a collection whose configured random source repeats.",
+    "C05": "Creates with a generated id and an id callback are a fourth entry point of the tuple property.",
+    "C07": "A third of the core collection subscriptions are filtered views.",
+    "C11": "The collection workload includes writes rejected after their id was generated.",
+    "C15": "The waste pager interleaves conditional adds that are turned down.",
+    "C19": "Conditional deletes whose check refuses are part of the sequences.",
+    "C20": "Masked publication updates may name the whole audience message.",
+}
+for _k, _v in _ROUND10.items():
+    META[_k]["text"] += " " + _v
